@@ -155,15 +155,23 @@ def analyse(facts, tier):
                             why='generate32/generateAndMix32/SendStereoAudio receive the clamped frame count' if uses_ok else 'a consumer receives an unclamped frame count'))
 
         # ---- R5
+        # the accumulator: the local the non-constant returns hand back; the remaining count: the local initialised from the request
+        rets = [st for b, j, st in cfg.returns() if st['s'].get('e') is not None and const_of(st['s']['e']) is None]
+        acc_ids = {y.get('id') for r in rets for y in walk(r['s']['e']) if isinstance(y, dict) and y.get('k') == 'DeclRefExpr' and not y.get('parm')}
+        left_ids = set()
+        for b, j, st in cfg.stmts():
+            if st['s'].get('k') == 'DeclStmt':
+                for v in st['s']['decls']:
+                    if v.get('init') is not None and strip(v['init']).get('id') == cnt:
+                        left_ids.add(v['id'])
         acc = None
         for b, j, st in cfg.stmts():
             for x in walk(st['s']):
                 ap = assign_parts(x)
-                if ap and ap[2] == '+=' and strip(ap[0]).get('k') == 'DeclRefExpr' and short(strip(ap[0])['n']) == 'gotten_len':
-                    acc = (show(ap[1]), st['loc'], strip(ap[0]).get('id'))
-        rets = [st for b, j, st in cfg.returns() if st['s'].get('e') is not None and const_of(st['s']['e']) is None]
+                if ap and ap[2] == '+=' and strip(ap[0]).get('k') == 'DeclRefExpr' and strip(ap[0]).get('id') in acc_ids:
+                    acc = (show(strip(ap[1])), st['loc'], strip(ap[0]).get('id'))
         ok = acc is not None and rets and all(mentions(r['s']['e'], lambda y: y.get('id') == acc[2]) for r in rets)
-        left_dec = any(assign_parts(x) and assign_parts(x)[2] == '-=' and short(strip(assign_parts(x)[0]).get('n', '')) == 'left' and acc and show(strip(assign_parts(x)[1])) == acc[0]
+        left_dec = any(assign_parts(x) and assign_parts(x)[2] == '-=' and strip(assign_parts(x)[0]).get('id') in left_ids and acc and show(strip(assign_parts(x)[1])) == acc[0]
                        for b, j, st in cfg.stmts() for x in walk(st['s']))
         copies = [(b, j) for b, j, st in cfg.stmts() for x in calls_in(st['s']) if short(callee_name(x)) == 'SendStereoAudio']
         for b, j, st in cfg.returns():
@@ -184,47 +192,65 @@ def analyse(facts, tier):
 
     # ---- R3 shapes in SendStereoAudio
     sd = single_defs(ssa.d)
-    P = {p['n']: p['id'] for p in ssa.params}
-    def local(name):
-        for b, j, st in ssa.cfg.stmts():
-            if st['s'].get('k') == 'DeclStmt':
-                for v in st['s']['decls']:
-                    if v['n'] == name and 'init' in v:
-                        return v
-        return None
-    tc = local('toCopy')
-    ms = local('maxSamples')
-    ins = local('inSamples')
-    oo = local('outputOffset')
-    if not (tc and ms and ins and oo):
-        raise build.AnalysisBroken('C13.R3: locals toCopy/maxSamples/inSamples/outputOffset of SendStereoAudio not found')
-    i = strip(tc['init'])
-    ok = callee_name(i) == 'std::min' and {show(strip(a)) for a in i['a']} == {'maxSamples', 'inSamples'}
-    obls.append(Obl('C13.R3', ssa.name, 'toCopy = min(maxSamples, inSamples)', ssa.loc, 'discharged' if ok else 'finding', why=show(i)))
-    i = strip(ms['init'])
-    ok = i.get('k') == 'BinaryOperator' and i['op'] == '-' and strip(i['l']).get('id') == P.get('samples_requested') and show(strip(i['r'])) == 'outputOffset'
-    obls.append(Obl('C13.R3', ssa.name, 'maxSamples = requested - written', ssa.loc, 'discharged' if ok else 'finding', why=show(i)))
-    i = strip(ins['init'])
-    ok = i.get('k') == 'BinaryOperator' and i['op'] == '*' and {show(strip(i['l'])), show(strip(i['r']))} == {'in_size', '2'}
-    obls.append(Obl('C13.R3', ssa.name, 'inSamples = 2 * produced frames', ssa.loc, 'discharged' if ok else 'finding', why=show(i)))
-    ok = strip(oo['init']).get('id') == P.get('out_pos')
-    obls.append(Obl('C13.R3', ssa.name, 'outputOffset = out_pos', ssa.loc, 'discharged' if ok else 'finding', why=show(oo['init'])))
-    for side in ('left', 'right'):
+    # parameters by position: requested samples, produced frames, source, samples written so far, left, right, format.  Every local
+    # (toCopy, maxSamples, inSamples, outputOffset, sampleOffset - whatever they are called) is replaced by its definition, and the
+    # expressions that reach the copy helpers and the destination pointers are compared with the required forms.
+    if len(ssa.params) < 7:
+        raise build.AnalysisBroken('C13.R3: SendStereoAudio has %d parameters, expected 7' % len(ssa.params))
+    P_REQ, P_FRAMES, P_SRC, P_POS, P_LEFT, P_RIGHT, P_FMT = [p_['id'] for p_ in ssa.params[:7]]
+    def is_par(e, pid):
+        return strip(e).get('k') == 'DeclRefExpr' and strip(e).get('id') == pid
+    def bin_(e, op):
+        e = strip(e)
+        return (e['l'], e['r']) if e.get('k') == 'BinaryOperator' and e.get('op') == op else None
+    def comm(pair, p1, p2):
+        return pair is not None and ((p1(pair[0]) and p2(pair[1])) or (p1(pair[1]) and p2(pair[0])))
+    counts = []
+    for b, j, st in ssa.cfg.stmts():
+        for x in calls_in(st['s']):
+            if short(callee_name(x)).startswith('CopySamples') and len(x.get('a', [])) >= 5:
+                counts.append((subst(x['a'][3], sd), subst(x['a'][4], sd), st['loc']))
+    if not counts:
+        raise build.AnalysisBroken('C13.R3: calls of the copy helpers not found in SendStereoAudio')
+    def is_room(e):      # requested - written
+        pr = bin_(e, '-')
+        return pr is not None and is_par(pr[0], P_REQ) and is_par(pr[1], P_POS)
+    def is_produced(e):  # 2 * produced frames
+        return comm(bin_(e, '*'), lambda a: is_par(a, P_FRAMES), lambda a: const_of(a) == 2)
+    ok_min = ok_room = ok_prod = ok_half = True
+    for cnt_e, stride_e, loc_ in counts:
+        half = bin_(cnt_e, '/')
+        if not (half and const_of(half[1]) == 2):
+            ok_half = False
+            continue
+        m_ = minlike(half[0])
+        if not m_:
+            ok_min = False
+            continue
+        ok_room = ok_room and any(is_room(a) for a in m_)
+        ok_prod = ok_prod and any(is_produced(a) for a in m_)
+    c0 = counts[0]
+    obls.append(Obl('C13.R3', ssa.name, 'toCopy = min(maxSamples, inSamples)', c0[2], 'discharged' if (ok_min and ok_half) else 'finding',
+                    why='every copy helper receives min(..) / 2 frames (%d call sites)' % len(counts) if (ok_min and ok_half) else 'the frame count handed to a copy helper is %s' % show(strip(c0[0]))))
+    obls.append(Obl('C13.R3', ssa.name, 'maxSamples = requested - written', c0[2], 'discharged' if ok_room else 'finding', why=show(strip(c0[0]))[:120]))
+    obls.append(Obl('C13.R3', ssa.name, 'inSamples = 2 * produced frames', c0[2], 'discharged' if ok_prod else 'finding', why=show(strip(c0[0]))[:120]))
+    obls.append(Obl('C13.R3', ssa.name, 'outputOffset = out_pos', c0[2], 'discharged' if ok_room else 'finding', why='the samples already written are the parameter itself'))
+    def from_format(e):
+        e = strip(e)
+        return e.get('k') == 'MemberExpr' and short(e['n']) == 'sampleOffset' and strip(e.get('b') or {}).get('id') == P_FMT
+    for side, pid in (('left', P_LEFT), ('right', P_RIGHT)):
         found = None
         for b, j, st in ssa.cfg.stmts():
             for x in walk(st['s']):
                 ap = assign_parts(x)
-                if ap and strip(ap[0]).get('id') == P.get(side) and ap[2] == '+=':
-                    found = (strip(ap[1]), st['loc'])
+                if ap and strip(ap[0]).get('id') == pid and ap[2] == '+=':
+                    found = (strip(subst(ap[1], sd)), st['loc'])
         ok = False
         if found:
-            r = found[0]
-            ok = r.get('k') == 'BinaryOperator' and r['op'] == '*' and show(strip(r['r'])) == 'sampleOffset'
-            l = strip(r['l']) if ok else {}
-            ok = ok and l.get('k') == 'BinaryOperator' and l['op'] == '/' and show(strip(l['l'])) == 'outputOffset' and const_of(l['r']) == 2
+            ok = comm(bin_(found[0], '*'), from_format, lambda a: bin_(a, '/') is not None and is_par(bin_(a, '/')[0], P_POS) and const_of(bin_(a, '/')[1]) == 2)
         obls.append(Obl('C13.R3', ssa.name, '%s += (written / 2) * sampleOffset' % side, found[1] if found else ssa.loc, 'discharged' if ok else 'finding',
                         why=show(found[0]) if found else 'destination pointer is not advanced'))
-    ok = show(subst(local('sampleOffset')['init'], {})) == 'format->sampleOffset' if local('sampleOffset') else False
+    ok = all(from_format(stride_e) for cnt_e, stride_e, loc_ in counts)
     obls.append(Obl('C13.R3', ssa.name, 'sampleOffset comes from the format', ssa.loc, 'discharged' if ok else 'finding', why='format->sampleOffset' if ok else 'sampleOffset is not the caller\'s format field'))
     # helpers
     for hname in ('CopySamplesTransformed', 'CopySamplesRaw'):
@@ -526,11 +552,18 @@ def r6(facts):
         if fn is None:
             continue
         ls = None
+        # the samples left in the request: the local(s) initialised from the count parameter
+        left_ids6 = set()
+        for b, j, st in fn.cfg.stmts():
+            if st['s'].get('k') == 'DeclStmt':
+                for v in st['s']['decls']:
+                    if v.get('init') is not None and strip(v['init']).get('id') == fn.params[1]['id']:
+                        left_ids6.add(v['id'])
         for b, j, st in fn.cfg.stmts():
             if st['s'].get('k') == 'DeclStmt':
                 for v in st['s']['decls']:
                     i0 = strip(v.get('init')) if v.get('init') is not None else None
-                    if i0 is not None and i0.get('k') == 'BinaryOperator' and i0['op'] == '/' and const_of(i0['r']) == 2 and short(strip(i0['l']).get('n', '')) == 'left':
+                    if i0 is not None and i0.get('k') == 'BinaryOperator' and i0['op'] == '/' and const_of(i0['r']) == 2 and strip(i0['l']).get('id') in left_ids6:
                         ls = v
         # a local helper that forwards one of its parameters as the frame count of the chips is a consumer of that argument
         helper_probes = {}
